@@ -61,7 +61,7 @@ def _note(draw, zid: str, all_zids: list, force_id=None):
 
 
 @st.composite
-def directory(draw, n_pages=(2, 4), notes_per_page=(2, 6), pad_lines=False):
+def directory(draw, n_pages=(2, 4), notes_per_page=(2, 6), pad_lines=False, dup_ids=False):
     rels = draw(st.lists(st.sampled_from(PAGES), min_size=n_pages[0], max_size=n_pages[1], unique=True))
     counts = [draw(st.integers(*notes_per_page)) for _ in rels]
     all_zids = []
@@ -76,6 +76,9 @@ def directory(draw, n_pages=(2, 4), notes_per_page=(2, 6), pad_lines=False):
         all_zids.extend(zs)
     out = {}
     ids_left = [("ID", "gid1"), ("ID", "gid2"), ("RID", "rid1")]
+    if dup_ids:
+        # the same ID:: / RID:: on several notes / pages (ambiguous link targets)
+        ids_left += [("ID", "gid1"), ("RID", "rid1"), ("ID", "gid2")]
     for rel, zs in zip(rels, per_page):
         notes = []
         for z in zs:
@@ -107,10 +110,17 @@ def directory(draw, n_pages=(2, 4), notes_per_page=(2, 6), pad_lines=False):
             lv = draw(st.sampled_from([1, 1, 2]))
             cut = draw(st.integers(1, len(sec_items)))
             sec = {"level": lv, "header": hdr, "nl": 0, "blocks": [{"items": sec_items[:cut], "blank": 1}], "children": []}
-            if sec_items[cut:]:
-                sub = {"level": lv + 1, "header": [W(draw(st.sampled_from(["Sub", "Deep"])))], "nl": 0,
-                       "blocks": [{"items": sec_items[cut:], "blank": 1}], "children": []}
-                sec["children"].append(sub)
+            rest = sec_items[cut:]
+            parent = sec
+            while rest and parent["level"] < 4:
+                # chain of ever deeper sub-sections (H2 > H3 > H4)
+                c2 = draw(st.integers(1, len(rest)))
+                sub = {"level": parent["level"] + 1, "header": [W(draw(st.sampled_from(["Sub", "Deep", "Leaf"])))], "nl": 0,
+                       "blocks": [{"items": rest[:c2], "blank": 1}], "children": []}
+                parent["children"].append(sub)
+                parent, rest = sub, rest[c2:]
+            if rest:
+                parent["blocks"].append({"items": rest, "blank": 1})
             secs.append(sec)
         out[rel + ".zo"] = {"title": title, "head": [], "blank": 1, "body": body, "secs": secs}
     return out
